@@ -414,25 +414,25 @@ impl From<Arc<TaskWaker>> for Waker {
 // X7: `impl Wake for TaskWaker { fn wake_by_ref(self: &Arc<Self>) }` lifted to an inherent
 // method on the pointee (Arc deref)
 impl TaskWaker {
-//@extract id=TaskWaker::wake file=crux_core/src/capability/executor.rs within="impl Wake for TaskWaker" item="fn wake" props=C01
+//@extract id=TaskWaker::wake file=crux_core/src/capability/executor.rs within="impl Wake for TaskWaker" item="fn wake" props=C01+C05
 //@expect fn wake(self: Arc<Self>)
 //@sig pub fn wake(&self, Tracked(w): Tracked<&mut World>)
 //@contract
         requires
             self.sender.role() is Ready,
         ensures
-            *final(w) == (World { ready: old(w).ready + 1, ..*old(w) }), // [C01/TaskWaker::wake/waking-by-value-does-what-waking-by-reference-does]
+            *final(w) == (World { ready: old(w).ready + 1, ..*old(w) }), // [C01+C05/TaskWaker::wake/waking-by-value-does-what-waking-by-reference-does]
 //@rule X6.world * s/(?:self\.wake_by_ref\(\)|Self::wake_by_ref\(&self\))/self.wake_by_ref(Tracked(w))/
 //@end
 
-//@extract id=TaskWaker::wake_by_ref file=crux_core/src/capability/executor.rs within="impl Wake for TaskWaker" item="fn wake_by_ref" props=C01
+//@extract id=TaskWaker::wake_by_ref file=crux_core/src/capability/executor.rs within="impl Wake for TaskWaker" item="fn wake_by_ref" props=C01+C05
 //@expect fn wake_by_ref(self: &Arc<Self>)
 //@sig pub fn wake_by_ref(&self, Tracked(w): Tracked<&mut World>)
 //@contract
         requires
             self.sender.role() is Ready, // the waker was made by QueuingExecutor::run_task from its own ready_sender
         ensures
-            *final(w) == (World { ready: old(w).ready + 1, ..*old(w) }), // [C01/TaskWaker::wake_by_ref/the-woken-task-is-queued-on-the-executors-ready-queue-exactly-once]
+            *final(w) == (World { ready: old(w).ready + 1, ..*old(w) }), // [C01+C05/TaskWaker::wake_by_ref/the-woken-task-is-queued-on-the-executors-ready-queue-exactly-once]
 //@end
 }
 
@@ -1209,31 +1209,31 @@ pub mod command_m {
     // X7: `impl Wake for CommandWaker { fn wake_by_ref(self: &Arc<Self>) }` lifted to an inherent
     // method on the pointee (Arc deref)
     impl CommandWaker {
-//@extract id=CommandWaker::wake file=crux_core/src/command/executor.rs within="impl Wake for CommandWaker" item="fn wake" props=C01+C07
+//@extract id=CommandWaker::wake file=crux_core/src/command/executor.rs within="impl Wake for CommandWaker" item="fn wake" props=C01+C05+C07
 //@expect fn wake(self: Arc<Self>)
 //@sig pub fn wake(&self, Tracked(w): Tracked<&mut World>)
 //@contract
             requires
                 self.ready_queue.role() is CReady,
             ensures
-                final(w).c_ready == old(w).c_ready + 1, // [C01/CommandWaker::wake/the-woken-task-is-queued-exactly-once]
-                final(w).host_woken, // [C01/CommandWaker::wake/the-commands-host-is-woken-too]
-                self.woken.is_current_poll_flag() ==> final(w).p_woken, // [C01+C07/CommandWaker::wake/a-waker-consumed-by-value-still-records-that-it-was-used]
+                final(w).c_ready == old(w).c_ready + 1, // [C01+C05/CommandWaker::wake/the-woken-task-is-queued-exactly-once]
+                final(w).host_woken, // [C01+C05/CommandWaker::wake/the-commands-host-is-woken-too]
+                self.woken.is_current_poll_flag() ==> final(w).p_woken, // [C01+C05+C07/CommandWaker::wake/a-waker-consumed-by-value-still-records-that-it-was-used]
                 *final(w) == (World { c_ready: final(w).c_ready, host_woken: true, p_woken: final(w).p_woken, ..*old(w) }),
 //@rule X6.world * s/(?:self\.wake_by_ref\(\)|Self::wake_by_ref\(&self\))/self.wake_by_ref(Tracked(w))/
 //@rule X6.world * s/\.wake\(\)/.wake(Tracked(w))/
 //@end
 
-//@extract id=CommandWaker::wake_by_ref file=crux_core/src/command/executor.rs within="impl Wake for CommandWaker" item="fn wake_by_ref" props=C01
+//@extract id=CommandWaker::wake_by_ref file=crux_core/src/command/executor.rs within="impl Wake for CommandWaker" item="fn wake_by_ref" props=C01+C05
 //@expect fn wake_by_ref(self: &Arc<Self>)
 //@sig pub fn wake_by_ref(&self, Tracked(w): Tracked<&mut World>)
 //@contract
             requires
                 self.ready_queue.role() is CReady, // the waker was made by Command::run_task from the command's own ready_sender
             ensures
-                final(w).c_ready == old(w).c_ready + 1, // [C01/CommandWaker::wake_by_ref/the-woken-task-is-queued-on-its-commands-ready-queue-exactly-once]
-                final(w).host_woken, // [C01/CommandWaker::wake_by_ref/the-commands-host-is-woken-too-no-wake-up-lost-between-layers]
-                self.woken.is_current_poll_flag() ==> final(w).p_woken, // [C01+C07/CommandWaker::wake_by_ref/the-waker-records-that-it-was-used]
+                final(w).c_ready == old(w).c_ready + 1, // [C01+C05/CommandWaker::wake_by_ref/the-woken-task-is-queued-on-its-commands-ready-queue-exactly-once]
+                final(w).host_woken, // [C01+C05/CommandWaker::wake_by_ref/the-commands-host-is-woken-too-no-wake-up-lost-between-layers]
+                self.woken.is_current_poll_flag() ==> final(w).p_woken, // [C01+C05+C07/CommandWaker::wake_by_ref/the-waker-records-that-it-was-used]
                 *final(w) == (World { c_ready: final(w).c_ready, host_woken: true, p_woken: final(w).p_woken, ..*old(w) }),
 //@rule X6.world * s/\.wake\(\)/.wake(Tracked(w))/
 //@end
